@@ -124,6 +124,16 @@ func (*compiler).VisitBinaryExpr#3 [C01]
   callsite NewPhi requires len(arg1) == 2 && reached(LS) && reached(LR)
   callsite NewPhi requires exists i int :: 0 <= i && i < 2 && arg1[i].X == lhs && arg1[i].Pred == at(LS, c.cbb) && arg1[1-i].X == rhs && arg1[1-i].Pred == at(LR, c.cbb)
 
+// ---- C06: converting a Variable to a (primitive) type it does not currently hold stops the program ----
+// primitiveAnyCast, the closure of VisitCastExpr that unpacks a Variable: the run-time error is reached exactly when the
+// block was reached and the type comparison is false; code after the conversion runs only when it was true
+func (*compiler).VisitCastExpr$2 [C06]
+  requires c != nil && c.cbb != nil && c.cf != nil && e != nil
+  at LV before call createIfElse
+  ensures reached(LV)
+  ensures $rterr == (at(LV, $rterr) || (at(LV, c.cbb.$guard) && !ir.denb(c.compareAnyType(lhs, vtable))))
+  ensures c.cbb.$guard == (at(LV, c.cbb.$guard) && ir.denb(c.compareAnyType(lhs, vtable)))
+
 // ================= C02: every operator application that type-checks has a consistent lowering =================
 // type classes: 1 Zahl, 2 Kommazahl, 3 Byte, 4 Wahrheitswert, 5 Buchstabe (IR: i64, double, i8, i1, i32)
 spec irOfClass(k int) int := k
@@ -531,9 +541,11 @@ func (*compiler).loadSmallAnyValue
   trusted
   modifies nothing
   ensures ir.irty(result) == ir.irtyOf(typ) && !ir.isIntConst(result)
+// (its result is one IR value determined by the Variable and the expected type descriptor; the comparison
+// instructions it emits do not branch)
 func (*compiler).compareAnyType
   trusted
-  modifies nothing
+  pure
 func (*compiler).mangledNameType
   trusted
   modifies nothing
